@@ -10,6 +10,7 @@ import (
 	"crypto"
 	"fmt"
 	"math/big"
+	"strings"
 
 	"github.com/oasisprotocol/curve25519-voi/curve"
 	"github.com/oasisprotocol/curve25519-voi/primitives/ed25519"
@@ -621,6 +622,25 @@ func sweep(r *mon.Run, c Case) {
 				// where plain verification documents a panic the cached verifier may panic or refuse; it must not accept
 				if (wpan && !pan && got) || (!wpan && (pan || got != want)) {
 					fail(fmt.Sprintf("cache.VerifyWithOptions(pass %d)", pass), got, pan)
+				}
+			}
+		}
+		// two things wrong at once: the same inputs under option sets that are themselves unacceptable (a pre-hash
+		// identifier the scheme does not know, a pre-hash of the wrong length for this message, an over-long context). Plain
+		// verification documents a panic for them whatever else is wrong with the key or the signature; verification with
+		// the expanded key must decide the same way (panic for panic, false for false), whichever check it runs first
+		if it.exp != nil && fl%4 == 1 {
+			for bi, bo := range []ed25519.Options{{Hash: crypto.SHA256}, {Hash: crypto.SHA512}, {Context: strings.Repeat("c", 256)}, {Hash: crypto.SHA512, Context: strings.Repeat("c", 256)}} {
+				bo.Verify = o.Verify
+				if bi == 1 && len(it.msg) == 64 {
+					continue // a 64-byte message is a well-formed pre-hash
+				}
+				bw, bwpan := single(it.pk, it.msg, it.sig, &bo)
+				bg, bgpan := singleExpanded(it.exp, it.msg, it.sig, &bo)
+				r.Eval(nil)
+				r.Hist(fmt.Sprintf("sweep/unacceptable-options/plain-panics=%v", bwpan))
+				if bg != bw || bgpan != bwpan {
+					r.Violate("sweep/unacceptable-options/expanded-differs-from-plain", fmt.Sprintf("family %s, option set %02d, unacceptable options #%d: VerifyExpandedWithOptions says %v (panic=%v), VerifyWithOptions says %v (panic=%v)", it.c.Fam, fl, bi, bg, bgpan, bw, bwpan), map[string]any{"case": c})
 				}
 			}
 		}
